@@ -8,14 +8,19 @@ name = sys.argv[2] if len(sys.argv) > 2 else sid
 out = '/tmp/seed_%s_out' % sid
 dst = os.path.join(VERIF, 'seeded', name)
 os.makedirs(dst, exist_ok=True)
-shutil.copy(os.path.join(out, 'patch.diff'), os.path.join(dst, 'patch.diff'))
-demo = '/tmp/seed_%s_demo' % sid if os.path.isdir('/tmp/seed_%s_demo' % sid) else os.path.join(out, 'demo')
-if os.path.isdir(os.path.join(dst, 'demo')):
-    shutil.rmtree(os.path.join(dst, 'demo'))
-shutil.copytree(demo, os.path.join(dst, 'demo'), ignore=shutil.ignore_patterns('target'))
-notes = json.load(open(os.path.join(out, 'notes.json')))
-verify = open('/tmp/seed_%s_verify.log' % sid).read() if os.path.exists('/tmp/seed_%s_verify.log' % sid) else ''
-res_line = [l for l in verify.splitlines() if l.startswith('RESULT')]
+old_meta = None
+if os.path.isdir(out):
+    shutil.copy(os.path.join(out, 'patch.diff'), os.path.join(dst, 'patch.diff'))
+    demo = '/tmp/seed_%s_demo' % sid if os.path.isdir('/tmp/seed_%s_demo' % sid) else os.path.join(out, 'demo')
+    if os.path.isdir(os.path.join(dst, 'demo')):
+        shutil.rmtree(os.path.join(dst, 'demo'))
+    shutil.copytree(demo, os.path.join(dst, 'demo'), ignore=shutil.ignore_patterns('target'))
+    notes = json.load(open(os.path.join(out, 'notes.json')))
+    verify = open('/tmp/seed_%s_verify.log' % sid).read() if os.path.exists('/tmp/seed_%s_verify.log' % sid) else ''
+    res_line = [l for l in verify.splitlines() if l.startswith('RESULT')]
+else:
+    # re-recording an already stored seed: only which checks fire is refreshed
+    old_meta = json.load(open(os.path.join(dst, 'meta.json')))
 import tempfile
 from concurrent.futures import ThreadPoolExecutor
 # the checks run against a scratch copy of /repo with the change applied (VERIF_REPO), exactly as the thorough
@@ -46,11 +51,16 @@ try:
             caught[pid] = ['CHECK-ERROR: ' + (r.stdout.strip().splitlines() or ['?'])[-1][:200]]
 finally:
     shutil.rmtree(tmp, ignore_errors=True)
-meta = {
-    'id': name, 'property': notes.get('property', sid[:3]), 'origin': 'independent sub-agent given only the property text and a scratch worktree',
-    'summary': notes.get('summary'), 'needs': notes.get('needs'), 'demo_cmd': notes.get('demo_cmd'),
-    'verified': {'suite_passes_with_change': 'only test_full_dump_memory fails (baseline)' , 'demo_with_change': 'fails', 'demo_without_change': 'passes', 'how': 'tools/verify_seed.sh in the scratch worktree: ' + (res_line[-1] if res_line else 'n/a')},
-    'caught_by': sorted(k for k, v in caught.items() if not v[0].startswith('CHECK-ERROR')), 'rules_fired': caught,
-}
+if old_meta is not None:
+    meta = old_meta
+    meta['caught_by'] = sorted(k for k, v in caught.items() if not v[0].startswith('CHECK-ERROR'))
+    meta['rules_fired'] = caught
+else:
+    meta = {
+        'id': name, 'property': notes.get('property', sid[:3]), 'origin': 'independent sub-agent given only the property text and a scratch worktree',
+        'summary': notes.get('summary'), 'needs': notes.get('needs'), 'demo_cmd': notes.get('demo_cmd'),
+        'verified': {'suite_passes_with_change': 'only test_full_dump_memory fails (baseline)' , 'demo_with_change': 'fails', 'demo_without_change': 'passes', 'how': 'tools/verify_seed.sh in the scratch worktree: ' + (res_line[-1] if res_line else 'n/a')},
+        'caught_by': sorted(k for k, v in caught.items() if not v[0].startswith('CHECK-ERROR')), 'rules_fired': caught,
+    }
 json.dump(meta, open(os.path.join(dst, 'meta.json'), 'w'), indent=1)
 print(name, 'property', meta['property'], 'caught by', meta['rules_fired'])
